@@ -82,6 +82,22 @@ CHECKS.update({
    note=E4_NOTE + " Pure list re-ordering is not asserted either way."),
 })
 
+
+CHECKS.update({
+ "C17": dict(engine="E5 discovery/explorer", level="exploration", ref="DESIGN.md §5 C17",
+   technique="runtime monitoring: (1) reference-model monitor after every step, (2) recorded concurrent histories checked for linearizability with porcupine, (3) Go race detector with attribution to reader/writer pairs of the tables",
+   text="The real TargetsDiscovery and Explore, wired and fed as in cmd/kvass/coordinator.go, are driven with sequences of full updates, partial first rounds and reloads that add/remove/keep jobs. Monitor 1 compares all four read APIs with a reference model after every step and re-checks earlier snapshots; monitor 2 records reads of 4-8 concurrent goroutines against a single writer (unique version per update) and checks each short history with porcupine against a sequential job->version map (a kept job may never be missing); monitor 3 repeats such histories under -race.",
+   note="Trusted: the harness' feeding of the discovery channel (what the Prometheus discovery manager would send) and porcupine v1.3.0. Updates and reloads are issued by one writer: update-reload races are outside the property. Held = held on the observed histories; porcupine timeout = inconclusive."),
+ "C18": dict(engine="E6 kubernetes fake", level="exploration", ref="DESIGN.md §5 C18",
+   technique="runtime monitoring on a client-go fake clientset: returned shards and the recorded API actions / objects judged; exhaustive sweep of the bounded parameter grid",
+   text="Every combination of current and requested replica count 0..6, 0..2 claim templates, deletion flag, six pod-list orders and readiness masks (thorough: every subset) is executed against the real ReplicasManager / shard manager on a fake clientset loaded with claims for all ordinals of two StatefulSets and decoys with similar names. Shards must come in ordinal order with the right URL and readiness; a scale change must be exactly one update to the requested value (none if unchanged); deleted claims must be exactly those of removed ordinals when deletion is on and none otherwise; a StatefulSet in a rolling update is skipped.",
+   note="Trusted: the client-go fake clientset as stand-in for the API server. Exhaustive within the stated bounds only; foreign pods, missing pods and nil replica counts are outside the property's quantifier."),
+ "C20": dict(engine="E5 discovery/explorer", level="exploration", ref="DESIGN.md §5 C20",
+   technique="runtime monitoring: per-target probe-lifecycle automaton over request events recorded at loopback targets, polling monitor on Explore.Get, POST monitor on a stub shard behind the real coordinator; race-detector pass",
+   text="The real Explore + scrape.Manager + TargetsDiscovery (and, in every second case, the real coordinator with a stub shard) run against 30-300 loopback HTTP targets with scripted latency and failing probes, with the real 5 s retry interval, while discovery updates remove and re-add targets inside the retry sleep and a reload keeps or drops a job. Every request at a target is recorded (arrival, departure, outcome, in-flight count) and judged per presence period: probed once asked for, single flight, retry not before the interval and within bounded time, silence after success, at most one probe after removal; Get reports healthy only after a success and with the payload's counts; nothing is assigned before a successful probe and the first assignment carries the kept count.",
+   note="Trusted: server-side timestamps at the loopback targets; harness-side bracketing of when an update reached the explorer. Upper time bounds are bounded-progress restatements with workloads sized for >2x slack; lower bounds need no tolerance."),
+})
+
 NOT_YET = {
 }
 
@@ -132,6 +148,10 @@ def main():
              "kind_free_text": "real coordinator + real shard objects, scripted sidecar answers, recorded request log, offline oracles"},
             {"name": "E4 config", "path": "harness/internal/e4", "serves_properties": ["C02", "C11", "C15", "C16"],
              "kind_free_text": "structured configuration and target-group generators; differential against the vendored Prometheus library; child processes for cross-process hashes"},
+            {"name": "E5 discovery/explorer", "path": "harness/internal/e5", "serves_properties": ["C17", "C20"],
+             "kind_free_text": "coordinator-side pipeline wired as cmd/kvass/coordinator.go; loopback HTTP targets; porcupine; race-detector pass"},
+            {"name": "E6 kubernetes fake", "path": "harness/internal/e6", "serves_properties": ["C18"],
+             "kind_free_text": "real kubernetes replicas/shard manager on client-go fake clientset; action log as event log"},
             {"name": "E3 sidecar", "path": "harness/internal/e3", "serves_properties": ["C09", "C10", "C12", "C13", "C14"],
              "kind_free_text": "one real sidecar driven through its HTTP API and proxy; in-memory and raw-TCP targets; RLIMIT_FSIZE crash child; real binary under SIGKILL"},
         ],
